@@ -1,7 +1,7 @@
 (* C05 — link layer after the handshake.  Property theorems only; proofs in LinkFrameProofs.v.
    Partial: the theorems cover the reader's logic on every byte stream under an ideal AEAD;
    goroutine scheduling, socket behaviour and how long a close takes are observed only. *)
-From Verif Require Import Prelude Gen Seq SeqProofs LinkFrame LinkFrameProofs Translated.
+From Verif Require Import Prelude Gen Seq SeqProofs Session LinkFrame LinkFrameProofs Translated.
 
 (* For every byte stream an attacker can put on the wire — any edit of the honest stream or
    arbitrary bytes — every frame the reader delivers is byte-identical to the inner frame of a
@@ -52,3 +52,23 @@ Theorem C05_source_link_seq_roundtrip : forall a b c d n, n < 2 ^ 32 ->
   let '(a', b', c', d') := Gen.go_LinkFrame_SetSequenceNum a b c d n in Gen.go_LinkFrame_SequenceNum a' b' c' d' = n.
 Proof. exact go_link_seq_roundtrip. Qed.
 Print Assumptions C05_source_link_seq_roundtrip.
+
+(* ---------- finding D23: an injected frame near the sequence wrap ---------- *)
+(* The property's last clause for link frames ("intact later frames keep arriving or the link is
+   closed") is FALSE of the faithful model once the receiver's regular window is within 255 of the
+   32-bit wrap: In() rolls the incoming key over on the sequence number of a frame that has not been
+   authenticated yet.  One injected frame with a small sequence number (it fails authentication and
+   is dropped, as it must be) moves the receiver to the next key epoch; the sender's next intact
+   frames are still sealed under the old one and are rejected until the sender wraps as well (up
+   to 255 frames; on a real link the reader closes after 100 consecutive failures).  Without the
+   injected frame the same intact frame is accepted.  Epoch 999 stands for "sealed under no key of
+   this session".  Replayed on the real link by ./check C05 (KNOWN-FINDING, see known_findings.json
+   and DESIGN 0.3, D23). *)
+Theorem C05_forged_rollover_refuted :
+  let e := mkEp (mkSq 4294967042 0 0) sq_zero 0 0 in          (* receiver: highest = 0xFFFFFF02, epoch 0 *)
+  let intact := 4294967043 in                                   (* the sender's next frame, epoch 0 *)
+  snd (unseal_at e 0 intact false) = true /\
+  snd (unseal_at e 999 5 false) = false /\
+  snd (unseal_at (fst (unseal_at e 999 5 false)) 0 intact false) = false.
+Proof. vm_compute. repeat split; reflexivity. Qed.
+Print Assumptions C05_forged_rollover_refuted.
